@@ -42,7 +42,7 @@ PROPS = {
 }
 # thorough tier: the P8E0 exhaustive theorems re-proved by kernel evaluation only (`decide +kernel`; axioms: propext, Classical.choice, Quot.sound)
 for _p, _m in {'C01': ['Props.C01FinKer', 'Props.C01ShardKer'], 'C03': ['Props.C03FinKer'], 'C06': ['Props.C06FinKer'], 'C07': ['Props.C07FinKer'], 'C08': ['Props.C08FinKer'], 'C09': ['Props.C09FinKer'], 'C10': ['Props.C10FinKer'], 'C11': ['Props.C11FinKer'], 'C17': ['Props.C17FinKer']}.items(): PROPS[_p]['lean_thorough'] = PROPS[_p].get('lean_thorough', []) + _m
-OVERRIDE_PROPS = {'C04', 'C12', 'C14', 'C15', 'C16', 'C18'}
+OVERRIDE_PROPS = {'C04', 'C12', 'C14', 'C15', 'C16', 'C17', 'C18'}
 
 def lost_functions(gix, pid):
     base = set(json.load(open(os.path.join(core.VERIF, 'translator/expected_untranslated.json'))))
@@ -338,6 +338,31 @@ def quire_state_history(qt, rng):
         else: toks += ['rt']
     return qt + ' hist ' + ' '.join(toks)
 
+def quire_boundary_spellings(qt, rng, count):
+    """C17 on the quire: the single-posit forms (`q += p`, `q -= p`) and the product forms with ONE (`q += (p, 1)`, add_product, the
+    Quire trait method) must leave the same accumulator for EVERY state, also where the sum wraps: states chosen so that q +- p lands
+    exactly on the NaR image, on zero, on the two ends of the range, or anywhere (random image)."""
+    import sys
+    sp = os.path.join(core.VERIF, 'tools')
+    if sp not in sys.path: sys.path.insert(0, sp)
+    from pyspec import to_rat
+    from .gen_inputs import anyp, interesting_posits
+    n = QT[qt]; es = {8: 0, 16: 1, 32: 2}[n]; w = {8: 32, 16: 128, 32: 512}[n]; fb = {8: 12, 16: 56, 32: 240}[n]
+    M = (1 << w) - 1; one = 1 << (n - 2); nar = 1 << (w - 1)
+    ps = interesting_posits(n, rng, count) + [anyp(n, rng) for _ in range(count)]
+    out = []
+    for p in ps:
+        v = to_rat(n, es, p)
+        if v is None or v == 0: continue
+        img = int(v * (1 << fb))                      # exact: every posit is a multiple of 2^-fb
+        for target in (nar, 0, nar - 1, nar + 1, rng.getrandbits(w)):
+            for sign, forms in ((1, ('a1 %x', 'ap %x {o:x}', 'ap {o:x} %x', 'mp %x {o:x}', 'tp %x {o:x}')), (-1, ('s1 %x', 'sp %x {o:x}', 'sp {o:x} %x', 'ms %x {o:x}', 'ts %x {o:x}'))):
+                S = (target - sign * img) & M
+                if S == nar: continue                    # a NaR start state stays NaR in every spelling (covered elsewhere)
+                for f in forms:
+                    out.append('%s hist fb %x %s' % (qt, S, f.format(o=one) % p))
+    return out
+
 def quire_history_px(N, rng, maxlen=10):
     """the same grammar on Q32E2 with PxE2<N> operands: N-bit posit patterns left-aligned in 32 bits (no inherent mp/ms methods)"""
     line = quire_history('q32' if N > 16 else ('q16' if N > 8 else 'q8'), rng, maxlen=maxlen)
@@ -407,8 +432,9 @@ def trig_worst_cases(count):
     return res
 
 SCANS = {'C06': ['sqrt'], 'C09': ['round', 'floor', 'ceil', 'trunc', 'fract'], 'C07': ['to_i32', 'to_u32', 'to_i64', 'to_u64', 'from_i32', 'from_u32'],
-         'C03': ['to_f64', 'to_f32'], 'C02': ['from_f32', 'p16_from_f32', 'p8_from_f32'], 'C08': ['to_p16_m', 'to_p8_m'], 'C01': ['p16-pairs']}
+         'C03': ['to_f64', 'to_f32'], 'C02': ['from_f32', 'p16_from_f32', 'p8_from_f32'], 'C08': ['to_p16_m', 'to_p8_m'], 'C01': ['p16-pairs', 'wide:p32'], 'C05': ['wide:p32fma', 'wide:p16fma']}
 SCAN_LOG = []
+SCAN_SEED = [1]
 def exhaustive_scans(pid, tier):
     """run the harness's exhaustive scans that belong to the property; returns the candidate lines (empty on a correct tree)"""
     import subprocess, time
@@ -421,6 +447,11 @@ def exhaustive_scans(pid, tier):
         if op == 'p16-pairs':
             stride = 1 if (tier == 'thorough' or pid == 'C01') else 16
             cmd = [exe, '--p16-scan', str(stride), '500']; space = (65536 // stride) * 65536 * 4
+        elif op.startswith('wide:'):
+            # NOT exhaustive: massive structured sampling (random / regime-and-fraction patterns / neighbours of a and -a / for the fused
+            # operations addends next to the negated rounded product) against the exact reference
+            lg = (34 if tier == 'thorough' else (31 if op == 'wide:p32' else 30))
+            cmd = [exe, '--wide-scan', op[5:], str(lg), '300', str(SCAN_SEED[0])]; space = 1 << lg
         elif op == 'sqrt': cmd = [exe, '--sqrt-scan', '2000']; space = (1 << 31) - 1
         else: cmd = [exe, '--scan', op, '2000']; space = 1 << 32
         try:
@@ -430,7 +461,7 @@ def exhaustive_scans(pid, tier):
         except Exception:
             ok = False; cand = []
         if op == 'sqrt': cand = ['p32 sqrt ' + c for c in cand]
-        SCAN_LOG.append({'scan': op, 'inputs': space if ok else 0, 'candidates': len(cand), 'wall_s': round(time.time() - t0, 1), 'ran': ok})
+        SCAN_LOG.append({'scan': op, 'exhaustive': not op.startswith('wide:'), 'inputs': space if ok else 0, 'candidates': len(cand), 'wall_s': round(time.time() - t0, 1), 'ran': ok})
         for c in cand:
             out.append(c)
             t = c.split()
@@ -467,6 +498,8 @@ def extra_streams(pid, tier, rng, scale):
             sh = 32 - N
             for a in range(1 << min(N, 9)):          # every (or the first 512) single N-bit posit(s): quire round trip
                 lines.append('q32 histpx %x fp %x' % (N, a << sh)); lines.append('q32 histpx %x a1 %x' % (N, ((a << (N - min(N, 9))) & ((1 << N) - 1)) << sh))
+    if pid in ('C17', 'C16'):
+        for qt in QT: lines += quire_boundary_spellings(qt, rng, (60 if pid == 'C17' else 10) * scale * big)
     if pid == 'C17':
         # agreement pairs: the spelled operation and the inherent one on IDENTICAL inputs (compared pairwise by the check)
         for ty in TYPES:
@@ -544,6 +577,7 @@ def extra_streams(pid, tier, rng, scale):
     # exhaustive SEARCHES (not proofs): the freshly built release harness runs the operation on ALL 2^32 inputs (all 2^32 operand pairs for
     # the P16E1 arithmetic) and compares with its own exact integer reference (own posit decoder/encoder, u128 arithmetic: harness/src/
     # scan.rs, hard16.rs, hard.rs); every disagreeing or panicking input becomes a protocol line that the specification judges below
+    SCAN_SEED[0] = rng.getrandbits(32)
     for ln in exhaustive_scans(pid, tier): lines.append(ln)
     if pid == 'C15':
         import math
@@ -642,6 +676,25 @@ def agreement_failures(pid, tag):
                 r2 = rb.get(av)
                 if r2 is not None and r2 != r:
                     out.append({'kind': 'AGREE', 'ty': ty, 'op': a_, 'args': av.split(), 'impl': r, 'want': '%s (= %s.%s)' % (r2, ty, b_), 'line': ''})
+    # quire: single-posit forms vs product-with-ONE forms from the same state (quire_boundary_spellings)
+    import re as _re
+    for qt, n in QT.items():
+        one = '%x' % (1 << (n - 2))
+        groups = collections.defaultdict(dict)
+        for av, r in (res.get((qt, 'hist')) or {}).items():
+            t = av.split()
+            if len(t) < 4 or t[0] != 'fb': continue
+            if len(t) == 4 and t[2] in ('a1', 's1'): key = (t[1], 'add' if t[2] == 'a1' else 'sub', t[3])
+            elif len(t) == 5 and t[2] in ('ap', 'mp', 'tp', 'sp', 'ms', 'ts') and one in (t[3], t[4]):
+                key = (t[1], 'add' if t[2] in ('ap', 'mp', 'tp') else 'sub', t[3] if t[4] == one else t[4])
+            else: continue
+            groups[key][av] = r
+        for key, g in groups.items():
+            base = None
+            for av in sorted(g, key=lambda a: (len(a.split()), a)):      # the single-posit form first
+                if base is None: base = (av, g[av]); continue
+                if g[av] != base[1]:
+                    out.append({'kind': 'AGREE', 'ty': qt, 'op': 'hist', 'args': base[0].split(), 'impl': base[1], 'want': '%s (= %s hist %s)' % (g[av], qt, av), 'line': ''})
     return out
 
 def distinct_nontrivial(pid, passes):
